@@ -390,6 +390,10 @@ func (d dataCase) Lib() lorawan.PHYPayload {
 			}
 		}
 	}
+	// an application payload of a caller-defined Payload type instead of *DataPayload
+	if !d.FRMIsMAC && len(d.Spec.FRMPayload) > 0 && len(d.Cuts) == 0 && d.Spec.FCnt%7 == 3 {
+		mp.FRMPayload = []lorawan.Payload{&userPayload{B: append([]byte{}, d.Spec.FRMPayload...)}}
+	}
 	if len(d.Cuts) > 0 && !d.FRMIsMAC {
 		mp.FRMPayload = nil
 		prev := 0
@@ -402,6 +406,16 @@ func (d dataCase) Lib() lorawan.PHYPayload {
 		MHDR:       lorawan.MHDR{MType: lorawan.MType(d.Spec.MType), Major: lorawan.Major(d.Spec.Major)},
 		MACPayload: mp,
 	}
+}
+
+// userPayload is a caller-defined implementation of lorawan.Payload (the interface is exported so
+// that applications can bring their own payload types); on the wire it is just its bytes.
+type userPayload struct{ B []byte }
+
+func (p userPayload) MarshalBinary() ([]byte, error) { return append([]byte{}, p.B...), nil }
+func (p *userPayload) UnmarshalBinary(uplink bool, data []byte) error {
+	p.B = append([]byte{}, data...)
+	return nil
 }
 
 func clonePayloads(in []lorawan.Payload) []lorawan.Payload {
